@@ -926,6 +926,16 @@ func (fr *Frame) sliceOp(st *State, in *ssa.Slice) {
 			ln, cp = hi, fmt.Sprint(arr.Len())
 		}
 		fr.set(in, Val{K: KSlice, S: fmt.Sprintf("(mk_slice %s %s %s %s)", x.S, lo, ln, cp)})
+		if b, ok := arr.Elem().Underlying().(*types.Basic); ok && b.Kind() == types.String && lo == "0" && in.High == nil && arr.Len() <= 16 {
+			// a string slice literal: its abstract content (sequence view) is its elements in order
+			E := r.get(st, r.elemKey(arr.Elem()))
+			a := r.facts.Define("litarr", "(Array Int Str)", sSelect(E, x.S))
+			t := "seq_nil"
+			for i := int64(0); i < arr.Len(); i++ {
+				t = fmt.Sprintf("(seq_snoc %s (select %s %d))", t, a, i)
+			}
+			r.facts.Assert(sImp(st.pc, fmt.Sprintf("(= (seq_of_str %s 0 %d) %s)", a, arr.Len(), t)))
+		}
 	default:
 		fr.set(in, r.freshVal("slice", in.Type(), st))
 	}
